@@ -399,6 +399,17 @@ class ExprMixin:
                     t = z3.And(t, u)
                 self.used_assumption('`is` between numbers / strings: equal values are the same object only for '
                                      "CPython's small-int cache (-5..256)")
+            if not self.spec_mode and isinstance(a, VBool) and isinstance(b, VBool):
+                # `flag is True` / `flag is False` with a flag that was handed in (a parameter or a stored field typed
+                # bool): the caller may have passed any truthy / falsy object (1, numpy.True_), which is no singleton
+                for x, y in ((a, b), (b, a)):
+                    xs, ys = z3.simplify(x.term), z3.simplify(y.term)
+                    if (z3.is_true(ys) or z3.is_false(ys)) and (
+                            (z3.is_const(xs) and xs.decl().kind() == z3.Z3_OP_UNINTERPRETED) or z3.is_select(xs)):
+                        t = z3.And(t, self.fresh('flag_is_singleton', B))
+                        self.used_assumption('`x is True` / `x is False` on a flag that was handed in holds only for the '
+                                             'bool singletons (a truthy 1 or numpy.True_ is neither)')
+                        break
             return t if isinstance(op, ast.Is) else z3.Not(t)
         if isinstance(op, (ast.In, ast.NotIn)):
             t = self.contains(b, a)
